@@ -191,6 +191,8 @@ func pdfSingleFaults(b *base, emit func(desc string, data []byte)) {
 		{"/Size ", "/Size -1 %"}, {"/Size ", "/Size 2147483647 %"}, {"/Length ", "/Length 2147483647 %"}, {"/Length ", "/Length -1 %"}, {"/Colors ", "/Colors 0 %"},
 		{"/MediaBox ", "/MediaBox [0 0] %"}, {"/MediaBox ", "/MediaBox [1e400 0 -1e400 NaN] %"}, {"/Rotate ", "/Rotate 45 %"},
 		{"/FirstChar ", "/FirstChar -1 %"}, {"/LastChar ", "/LastChar 2147483647 %"}, {"/DW ", "/DW -1 %"},
+		{"/Width ", "/Width -7 %"}, {"/Width ", "/Width 4294967296 %"}, {"/Height ", "/Height -1 %"}, {"/Height ", "/Height 40000 %"}, {"/Width ", "/Width 40000 %"},
+		{"/BitsPerComponent ", "/BitsPerComponent 16 %"}, {"/BitsPerComponent ", "/BitsPerComponent 3 %"}, {"/ColorSpace ", "/ColorSpace /DeviceCMYK %"}, {"/ColorSpace ", "/ColorSpace /DeviceRGB %"}, {"/ColorSpace ", "/ColorSpace [/Indexed [/Indexed [/Indexed /DeviceGray 1 <00>] 1 <00>] 1 <00>] %"},
 	} {
 		for idx := 0; ; {
 			i := bytes.Index(d[idx:], []byte(e[0]))
@@ -651,6 +653,22 @@ func pdfBase(c *fw.Ctx, i int) *base {
 		}}
 }
 
+// imageBase: a PDF whose pages draw image XObjects of every colour-space and
+// filter construction (one page is image-only, so the facade takes its
+// scanned-page path); faulted field by field like the text bases.
+func imageBase(c *fw.Ctx, i int) *base {
+	r := c.Rand("base", "pdfimg", i)
+	tk := fw.NewTokens(r)
+	var pages []pdfw.ImagePage
+	pg := pdfw.ImagePage{Text: []pdfw.SimpleItem{{X: 72, Y: 700, Size: 11, Text: tk.Next() + " caption"}}, Inline: true}
+	for k := 0; k < 5; k++ {
+		pg.Images = append(pg.Images, pdfw.GenImageSpec(r))
+	}
+	pages = append(pages, pg, pdfw.ImagePage{Images: []pdfw.ImageSpec{pdfw.GenImageSpec(r), pdfw.GenImageSpec(r)}})
+	data, fields := pdfw.ImagePDF(r, pages)
+	return &base{id: fmt.Sprintf("pdfimg%d", i), kind: "pdf", ext: "pdf", data: data, fields: fields, desc: fmt.Sprintf("image XObjects %+v / %+v", pages[0].Images, pages[1].Images)}
+}
+
 func htmlBase(c *fw.Ctx, i int) *base {
 	r := c.Rand("base", "html", i)
 	tok := fw.NewTokens(r)
@@ -708,6 +726,9 @@ func buildCases(c *fw.Ctx) []*Case {
 	var bases []*base
 	for i := 0; i < c.N(4, 24); i++ {
 		bases = append(bases, pdfBase(c, i))
+	}
+	for i := 0; i < c.N(1, 4); i++ {
+		bases = append(bases, imageBase(c, i))
 	}
 	for i := 0; i < c.N(1, 3); i++ {
 		bases = append(bases, htmlBase(c, i))
